@@ -14,6 +14,10 @@ mutual
     equivalent value or (where the original slot emitted no byte) the unset default -/
 inductive ValEqv (S : Schema) : Val → Val → Prop
   | refl (v : Val) : ValEqv S v v
+  /-- `-0.0 == 0.0` in Python; where a float is written under implicit presence inside an
+      always-written record (wrapper, map entry) a negative zero comes back as `+0.0` -/
+  | negZero32 : ValEqv S (.f32 0x80000000) (.f32 0)
+  | negZero64 : ValEqv S (.f64 0x8000000000000000) (.f64 0)
   | msg (c : Nat) (sl sl' : List Val) (ow : Bool) (unk : Bytes) (cur : List (Option Nat)) :
       SlotsEqv S (fieldsOf S c) cur 0 sl sl' → ValEqv S (.msg c sl ow unk cur) (.msg c sl' true unk cur)
   | list (xs ys : List Val) : ListEqv S xs ys → ValEqv S (.list xs) (.list ys)
